@@ -292,6 +292,10 @@ func (w *world) doStep() bool {
 		if auto {
 			autoText = "away-" + string(r.Printable(6))
 		}
+		u.cl.WideInts = r.Chance(1, 4) // the options integer in its 4-byte encoding
+		if u.cl.WideInts {
+			w.kinds["agree-wide-options"]++
+		}
 		if _, ok := u.cl.Agreed(reqName, icon, optsOf(refPM, refChat, auto), autoText); !ok {
 			w.c.Fail("C13/agreed/no-reply", "step %d: no reply to agreed", w.step)
 			return false
@@ -321,7 +325,12 @@ func (w *world) doStep() bool {
 		if r.Chance(2, 3) {
 			refPM, refChat, auto := r.Chance(1, 3), r.Chance(1, 3), r.Chance(1, 3)
 			autoText := ""
-			fs = append(fs, rc.F(113, rc.U16(optsOf(refPM, refChat, auto))))
+			if r.Chance(1, 4) {
+				fs = append(fs, rc.F(113, rc.U32(optsOf(refPM, refChat, auto))))
+				w.kinds["set-info-wide-options"]++
+			} else {
+				fs = append(fs, rc.F(113, rc.U16(optsOf(refPM, refChat, auto))))
+			}
 			if auto {
 				autoText = "auto-" + string(r.Printable(6))
 				fs = append(fs, rc.FS(215, autoText))
